@@ -350,35 +350,40 @@ def l3(rep, w):
                             tested.add(q[0][1])
         succ = f.succs()
         at_end_locals = {t['dst']['l'] for bi, t in f.calls() if callee_name(t) == SCN + 'is_at_end' and not t['dst'].get('p')}
+        # how many of the upcoming characters have been looked at (0, 1 or 2), the least over all paths: peek() looks at one,
+        # peek_next() at two, a helper that peeks at (at least) one; advance() uses one up
+        INF_ = 9
+        state_in = {b: INF_ for b in f.normal_blocks()}
+        state_in[0] = 0
+        work = [0]
+        while work:
+            b = work.pop()
+            st = state_in[b]
+            tt = f.blocks[b]['t']
+            nexts = list(succ[b])
+            if tt['t'] == 'call':
+                cn = callee_name(tt)
+                if cn == ADV:
+                    st = max(st - 1, 0)
+                elif cn == SCN + 'peek_next':
+                    st = max(st, 2)
+                elif cn in looks:
+                    st = max(st, 1)
+            elif tt['t'] == 'switch':
+                dpl = op_place(tt['d'])
+                if dpl is not None and not dpl.get('p') and dpl['l'] in at_end_locals:
+                    # at the end of the input there is no character left to consume: only the "not at end" edge matters
+                    nexts = [cb for v, cb in tt['cases'] if v == 0]
+            for x in nexts:
+                if x in state_in and st < state_in[x]:
+                    state_in[x] = st
+                    work.append(x)
         for a in advs:
             na += 1
             if a in tested:
                 r.ok('%s / advance() result compared with the newline' % f.path.replace(SCN, 'Scanner::'), sample=False)
                 continue
-            # can `a` be reached from the entry or from another advance() without passing a look-ahead?
-            starts = [0] + [x for y in advs for x in succ[y]]
-            seen = set()
-            stack = [x for x in starts]
-            blind = False
-            while stack:
-                b = stack.pop()
-                if b in seen:
-                    continue
-                seen.add(b)
-                if b == a:
-                    blind = True
-                    break
-                if b in look_blocks:
-                    continue
-                if b in advs:
-                    continue
-                tt = f.blocks[b]['t']
-                dpl = op_place(tt['d']) if tt['t'] == 'switch' else None
-                if dpl is not None and not dpl.get('p') and dpl['l'] in at_end_locals:
-                    # at the end of the input there is no character left to consume: only the "not at end" edge matters
-                    stack.extend(cb for v, cb in tt['cases'] if v == 0)
-                    continue
-                stack.extend(succ[b])
+            blind = state_in.get(a, INF_) == 0
             r.check(not blind, '%s / advance() is preceded by a look-ahead' % f.path.replace(SCN, 'Scanner::'),
                     'Scanner::%s consumes a character that nothing has looked at (no peek since the previous advance, and the returned character is not compared with '
                     '"\\n"): a line break at that position is not counted, and every later token, compile error and stack-trace line of the file is too small'
